@@ -221,6 +221,55 @@ def rule_semrules(crate, dispositions):
         report("CMDWORDS:command-words-are-free-identifiers", crate.file_of(fs[0]), fs[0]["line"], not free,
                "every command word is a reserved identifier or a keyword",
                "the command words %s are neither keywords nor reserved identifiers: `let reset = 5` is accepted, and in the REPL the line `reset` then wipes the session while the same lines in a file evaluate to 5 (`help * 3`, `list` behave likewise)." % ", ".join(free))
+    # ---- HARDNAME: a name the language does not reserve is looked up in a session table and the result unwrapped
+    hard = []
+    for nm in ("bytecode_interpreter::BytecodeInterpreter::compile_expression", "bytecode_interpreter::BytecodeInterpreter::compile_statement"):
+        cf_ = crate.find_fn(nm)
+        inits_ = {}
+        for s_ in walk(cf_["body"]):
+            if s_.get("k") == "Let" and s_.get("init") is not None and s_["pat"].get("k") == "Binding":
+                inits_[s_["pat"]["id"]] = s_["init"]
+        for x in walk(cf_["body"]):
+            if x.get("k") == "MethodCall" and x["name"] in ("unwrap", "expect"):
+                r = peel_refs(x["recv"])
+                if r.get("k") == "Path" and r["res"].get("r") == "local" and r["res"]["id"] in inits_:
+                    r = peel_refs(inits_[r["res"]["id"]])
+                if r.get("k") == "MethodCall" and r["name"] in ("get", "get_index_of") and r.get("args"):
+                    a0 = peel_refs(r["args"][0])
+                    if a0.get("k") == "Lit" and isinstance(a0.get("lit"), dict) and a0["lit"].get("lk") == "str":
+                        hard.append((cf_, x, a0["lit"]["v"]))
+    if hard:
+        hf, hl = crate.loc(hard[0][0], hard[0][1])
+        report("HARDNAME:compile:hard-coded-unit-lookup-unwrapped", hf, hl, False, "",
+               "the compiler looks up the hard-coded name `%s` in a session table and unwraps the result: the name is an ordinary, user-definable identifier that only the prelude provides." % hard[0][2])
+    else:
+        report("HARDNAME:compile:hard-coded-unit-lookup-unwrapped", crate.file_of(ce), ce["line"], True, "no hard-coded name is looked up and unwrapped in the compiler", "")
+    # ---- BASEUNITS: a second base unit for a dimension that already has one is accepted
+    es = crate.find_fn("typechecker::TypeChecker::elaborate_statement")
+    barm = _find_arm(crate, es, "ast::Statement", "DefineBaseUnit")
+    if barm is None:
+        out.error("anchor missing: DefineBaseUnit arm of elaborate_statement")
+    else:
+        errs = set()
+        for x in walk(barm["body"]):
+            v = ctor_variant(x) if x.get("k") in ("Call", "Struct", "Path") else None
+            if v and v[0].endswith("TypeCheckError"):
+                errs.add(v[1])
+        bf, bl = crate.loc(es, barm["pat"])
+        existing_check = any(e_ for e_ in errs if "Base" in e_ and e_ != "NoDimensionlessBaseUnit")
+        report("BASEUNITS:elaborate_statement:second-base-unit-accepted", bf, bl, existing_check,
+               "a base unit for a dimension that already has one is rejected",
+               "the only check on `unit x: D` is that D is not dimensionless (errors raised: %s): a second, unrelated base unit for an existing dimension is accepted, and two quantities of the same static type cannot be converted, added or compared at run time." % sorted(errs))
+    # ---- ZEROCONV: the polymorphic zero is stored without unit; `+`, `-` and comparisons special-case it, `->` does not
+    carm = _find_arm(crate, run, "vm::Op", "ConvertTo")
+    if carm is None:
+        out.error("anchor missing: ConvertTo arm of the VM")
+    else:
+        zero_aware = any(x.get("k") == "MethodCall" and x["name"] in ("is_zero", "comparison_unit") for x in walk(carm["body"]))
+        zf, zl = crate.loc(run, carm["pat"])
+        report("ZEROCONV:vm:ConvertTo:unit-less-zero-target", zf, zl, zero_aware,
+               "the conversion handles a unit-less zero operand",
+               "the literal 0 is dimension-polymorphic for the checker but is stored as a scalar; Add/Sub/comparisons special-case a zero operand, Op::ConvertTo does not: a value of static type Length that originates from `0` is not a valid conversion target.")
     out.analysed = {"sibling_rules": n}
     out.floor("sibling_rules", n, 8)
     return out
